@@ -258,6 +258,9 @@ class Interp:
             return ent[1](self, *args, **kwargs)
         if isinstance(f, types.MethodType):
             slf = f.__self__
+            ent2 = MODELS.get(id(f.__func__))
+            if ent2 is not None and ent2[0] is f.__func__:
+                return ent2[1](self, *args, **kwargs)
             if getattr(slf, "_pyvc_symbolic", False):
                 return f(*args, **kwargs)
             fn = f.__func__
@@ -1325,6 +1328,23 @@ class Interp:
         return out
 
     def e_GeneratorExp(self, e, fr):
+        if len(e.generators) == 1 and not e.generators[0].ifs:
+            g = e.generators[0]
+            it = self.eval(g.iter, fr)
+            if getattr(it, "_pyvc_symseq", False):
+                interp = self
+
+                def item(i):
+                    inner = Frame({}, fr, fr.globals, fr.fn_name, owner=fr.owner, self_obj=fr.self_obj)
+                    interp.assign(g.target, it.item(i), inner)
+                    return interp.eval(e.elt, inner)
+                return it.mapped(item)
+            out = []
+            for v in self.iterate(it):
+                inner = Frame({}, fr, fr.globals, fr.fn_name, owner=fr.owner, self_obj=fr.self_obj)
+                self.assign(g.target, v, inner)
+                out.append(self.eval(e.elt, inner))
+            return out
         return self.e_ListComp(e, fr)
 
     def e_SetComp(self, e, fr):
@@ -1865,6 +1885,8 @@ def m_print(interp, *a, **kw):
 
 @model(str)
 def m_str(interp, v=""):
+    if getattr(v, "_pyvc_strlike", False):
+        return v
     if contains_sym(v):
         return SymStr("<sym>")
     return str(v)
@@ -1989,7 +2011,7 @@ try:
     def m_trange(interp, *a, **kw):
         return m_range(interp, *a)
 
-    @model(_tqdm.tqdm.write)
+    @model(_tqdm.tqdm.write.__func__)
     def m_tqdm_write(interp, *a, **kw):
         return None
 except Exception:  # pragma: no cover
